@@ -67,22 +67,16 @@ Definition nanmax2 (acc x : fl) : fl :=
   | NaN, _ | _, NaN => NaN
   | _, _ => if fge acc x then acc else x
   end.
-(* np.max of an object-dtype array (np.maximum.reduce with Python comparisons):
-   acc = acc if acc >= x else x  - a NaN accumulator is replaced by the next entry *)
-Definition objmax2 (acc x : fl) : fl := if fge acc x then acc else x.
-
 Definition reduce (f : fl -> fl -> fl) (l : list fl) : fl :=
   match l with [] => Fin 0 | h :: t => fold_left f t h end.
 
 Fixpoint map2 {A B C} (f : A -> B -> C) (a : list A) (b : list B) : list C :=
   match a, b with x :: a', y :: b' => f x y :: map2 f a' b' | _, _ => [] end.
 
-(* errors[var].append(np.max(np.abs(val_new - val_old)) if len(dval) else 0)
-   [rect]: all vectors returned by the solve function have the same length, so that
-   np.array(results, object) is a 2-D object array and the rows are object arrays *)
-Definition err_of (rect : bool) (pr : list fl * list fl) : fl :=
-  let d := map fabs (map2 fsub (fst pr) (snd pr)) in
-  reduce (if rect then objmax2 else nanmax2) d.
+(* dval = np.asarray(val_new, float64) - np.asarray(val_old, float64)
+   errors[var].append(np.max(np.abs(dval)) if len(dval) else 0)      - float rows for any shape *)
+Definition err_of (pr : list fl * list fl) : fl :=
+  reduce nanmax2 (map fabs (map2 fsub (fst pr) (snd pr))).
 
 (* ------------------------------------------------------------------------------------------ *)
 Inductive method := Automatic | Constant | OtherMethod.   (* OtherMethod: warning, then as constant *)
@@ -154,16 +148,9 @@ Definition newton (cfg : config) (orc : state -> obs) (conv0 : bool) (alpha0 : Q
 (* ---- vector level: what the solve function returns ---- *)
 Record vobs := { v_pairs : list (list fl * list fl); v_res : fl }.
 
-Definition all_same_length (ps : list (list fl * list fl)) : bool :=
-  match ps with
-  | [] => true
-  | p :: _ => forallb (fun q => Nat.eqb (length (fst q)) (length (fst p)) &&
-                                Nat.eqb (length (snd q)) (length (fst p))) ps
-  end.
-
 (* pos = arange(2 * len(solver_vars)): only the first len(solver_vars) pairs are looked at *)
 Definition obs_of (nvars : nat) (v : vobs) : obs :=
-  {| o_errs := map (err_of (all_same_length (v_pairs v))) (firstn nvars (v_pairs v)); o_res := v_res v |}.
+  {| o_errs := map err_of (firstn nvars (v_pairs v)); o_res := v_res v |}.
 
 Definition newton_v (cfg : config) (vorc : state -> vobs) (conv0 : bool) (alpha0 : Q) : state :=
   newton cfg (fun st => obs_of (c_nvars cfg) (vorc st)) conv0 alpha0.
@@ -248,7 +235,7 @@ Definition body_pipeflow : list string :=
   ["init_options"; "init_all_result_tables"; "create_lookups"; "initialize_pit"; "converged=False";
    "identify_active:hydraulics"; "if_heat[use_given_hydraulic_results]";
    "dispatch[bad_mode:raise|bidirectional:bidirectional|else:hydraulics?,heat_transfer?]";
-   "extract_all_results"].
+   "try[extract_all_results]except[converged=False;init_all_result_tables;raise]"].
 Definition body_rerun_hydraulics : list string :=
   ["if_rerun["; "extract_active:hydraulics"; "identify_active:hydraulics"; "hydraulics"; "]"].
 Definition body_rerun_heat : list string :=
@@ -269,8 +256,8 @@ Fixpoint list_str_eqb (a b : list string) : bool :=
 
 (* ------------------------------------------------------------------------------------------ *)
 (* stages and pipeflow: result tables abstracted, exceptions as outcomes                        *)
-Inductive tables := AllNaN | Written | Partial.      (* Partial: extraction stopped midway *)
-Inductive outcome := Returned | NotConverged | OtherError.
+Inductive tables := AllNaN | Written.
+Inductive outcome := Returned | NotConverged | OtherException.
 
 Record netst := {
   n_conv : bool;          (* net.converged *)
@@ -282,7 +269,10 @@ Record netst := {
 
 (* one execution of a stage's Newton loop: its settings, its (arbitrary) observations and whether a
    component asks for a rerun afterwards *)
-Record run_in := { ri_cfg : config; ri_orc : state -> obs; ri_rerun : bool }.
+Inductive escape := NoEscape | EscNotConverged | EscOther.
+(* ri_escape: an exception leaves the stage from inside its Newton loop (raised by the solve function) or
+   before it (reduce_pit ...): the loop only runs while net.converged is False *)
+Record run_in := { ri_cfg : config; ri_orc : state -> obs; ri_rerun : bool; ri_escape : escape }.
 
 Inductive stage_kind := KHyd | KHeat | KBid.
 
@@ -304,6 +294,10 @@ Fixpoint stage (k : stage_kind) (reuse heat_unsupplied : bool) (r : run_in) (mor
   let n0 := set_conv n false (n_alpha n) in
   if (match k with KHeat => heat_unsupplied | _ => false end) then (n0, NotConverged, []) else
   let n1 := match k with KHeat => n0 | _ => set_idata n0 true end in
+  match ri_escape r with
+  | EscNotConverged => (n1, NotConverged, [])
+  | EscOther => (n1, OtherException, [])
+  | NoEscape =>
   let st := newton (ri_cfg r) (ri_orc r) (n_conv n1) (n_alpha n1) in
   let n2 := set_conv n1 (s_conv st) (s_alpha st) in
   let pop x := match k with KHeat => x | _ => if reuse then x else set_idata x false end in
@@ -318,7 +312,8 @@ Fixpoint stage (k : stage_kind) (reuse heat_unsupplied : bool) (r : run_in) (mor
         | _ => (n4, o, (sts ++ [st])%list)
         end
     end
-  else (pop n2, NotConverged, [st]).
+  else (pop n2, NotConverged, [st])
+  end.
 
 Inductive pmode := MHydraulics | MHeat | MSequential | MBidirectional | MBad.
 
@@ -338,24 +333,25 @@ Record penv := {
 }.
 
 Definition pipeflow (m : pmode) (e : penv) (n : netst) : netst * outcome * list state :=
-  if pe_options_raise e then (n, OtherError, []) else
+  if pe_options_raise e then (n, OtherException, []) else
   let n := set_conv (set_tables n AllNaN) (n_conv n) (pe_alpha0 e) in
-  if pe_setup_raise e then (n, OtherError, []) else
+  if pe_setup_raise e then (n, OtherException, []) else
   let n := set_conv n false (n_alpha n) in
   if pe_unsupplied e then (n, NotConverged, []) else
-  if pe_conn_raise e then (n, OtherError, []) else
+  if pe_conn_raise e then (n, OtherException, []) else
   let after (x : netst * outcome * list state) :=
     let '(n', o, sts) := x in
     match o with
-    | Returned => if pe_extract_raise e then (set_tables n' Partial, OtherError, sts)
+    | Returned => if pe_extract_raise e          (* except: converged = False; init_all_result_tables; raise *)
+                  then (set_conv (set_tables n' AllNaN) false (n_alpha n'), OtherException, sts)
                   else (set_tables n' Written, Returned, sts)
     | _ => x
     end in
   match m with
-  | MBad => (n, OtherError, [])
+  | MBad => (n, OtherException, [])
   | MHeat => if n_hyd_flag n
              then after (stage KHeat (pe_reuse e) (pe_heat_unsupplied e) (fst (pe_heat e)) (snd (pe_heat e)) n)
-             else (n, OtherError, [])
+             else (n, OtherException, [])
   | MBidirectional => after (stage KBid (pe_reuse e) false (pe_bid e) [] n)
   | MHydraulics => after (stage KHyd (pe_reuse e) false (fst (pe_hyd e)) (snd (pe_hyd e)) n)
   | MSequential =>
@@ -416,9 +412,9 @@ Record pcall := {
 }.
 
 Definition outcome_eqb (a b : outcome) : bool :=
-  match a, b with Returned, Returned | NotConverged, NotConverged | OtherError, OtherError => true | _, _ => false end.
+  match a, b with Returned, Returned | NotConverged, NotConverged | OtherException, OtherException => true | _, _ => false end.
 Definition tables_eqb (a b : tables) : bool :=
-  match a, b with AllNaN, AllNaN | Written, Written | Partial, Partial => true | _, _ => false end.
+  match a, b with AllNaN, AllNaN | Written, Written => true | _, _ => false end.
 
 Fixpoint pseq_ok (calls : list pcall) (n : netst) : bool :=
   match calls with
